@@ -289,10 +289,12 @@ class PartitionRecords:
         # aborting batches
         try:
             control_record = next(next_batch)
-        except StopIteration:  # pragma: no cover
-            raise Errors.KafkaError(
-                "Control batch did not contain any records"
-            ) from None
+        except StopIteration:
+            # Log compaction may keep only the header of a control batch
+            # (the last batch of a producer is retained empty once its marker
+            # is eligible for deletion). Such a batch holds no marker; it is
+            # skipped like any other control batch (same as the Java client).
+            return False
         return ControlRecord.parse(control_record.key) == ABORT_MARKER
 
     def _consumer_record(self, tp, record):
